@@ -86,3 +86,24 @@ Print Assumptions C14_walk.
 Print Assumptions C14_vendor_request_wellformed.
 Print Assumptions C14_enumerate.
 Print Assumptions C14_enumerate_any_fuel.
+
+(* ---------- the enumeration with the library on both sides (proofs/EnumerateApi.v) ----------
+   api_walk is what a user of the crate writes: A's get_vendor_defined_message_support encoder produces the request,
+   B's process_packet answers, A's decode_packet reads the answer, A takes the next selector (payload byte 0) and the
+   vendor ID set (the rest of the payload) and goes on until 0xFF.  From selector 0 it returns every configured set
+   of B exactly once, in order — for any A, any state of B, any destination value, both overflow modes, any fuel that
+   is at least the number of sets — and it agrees with the specification-level walk of C14_enumerate. *)
+Require Import EnumerateApi.
+Theorem C14_enumerate_through_the_api : forall ovf gA cA gB cB dest fuel,
+  wf_cfg gA -> cinv gA cA -> wf_cfg gB -> valid_cfg gB = true -> cinv gB cB -> dest < 256 ->
+  (length (g_vendor_ids gB) <= fuel)%nat ->
+  api_walk fuel ovf cA cB dest 0 = map enc_vendor_set (g_vendor_ids gB).
+Proof. exact api_enumerate_any_fuel. Qed.
+Theorem C14_api_walk_is_the_specification_walk : forall ovf gA cA gB cB dest fuel,
+  wf_cfg gA -> cinv gA cA -> wf_cfg gB -> valid_cfg gB = true -> cinv gB cB -> dest < 256 ->
+  (length (g_vendor_ids gB) <= fuel)%nat ->
+  api_walk fuel ovf cA cB dest 0 = walk (g_addr gA) fuel ovf cB 0.
+Proof. exact api_walk_agrees_with_walk. Qed.
+
+Print Assumptions C14_enumerate_through_the_api.
+Print Assumptions C14_api_walk_is_the_specification_walk.
